@@ -21,6 +21,10 @@ var (
 	defaultPrefix  = &ScopePrefix{String: "", Variables: make([]string, 0)}
 )
 
+// unsetEnumValue marks an enumerator without an explicit value (explicit
+// values may be negative).
+const unsetEnumValue = -1 << 62
+
 type statementWrapper struct {
 	comment   []string
 	statement interface{}
@@ -3159,18 +3163,15 @@ func (c *current) onEnum1(name, values, annotations interface{}) (interface{}, e
 		Values:      make([]*EnumValue, len(vs)),
 		Annotations: toAnnotations(annotations),
 	}
-	// Assigns numbers in order. This will behave badly if some values are
-	// defined and other are not, but I think that's ok since that's a silly
-	// thing to do.
+	// Assigns numbers the way Thrift does: an enumerator without an explicit
+	// value gets the previous enumerator's value plus one (the first gets 0).
 	next := 0
 	for idx, v := range vs {
 		ev := v.([]interface{})[0].(*EnumValue)
-		if ev.Value < 0 {
+		if ev.Value == unsetEnumValue {
 			ev.Value = next
 		}
-		if ev.Value >= next {
-			next = ev.Value + 1
-		}
+		next = ev.Value + 1
 		en.Values[idx] = ev
 	}
 	return en, nil
@@ -3185,7 +3186,7 @@ func (p *parser) callonEnum1() (interface{}, error) {
 func (c *current) onEnumValue1(docstr, name, value, annotations interface{}) (interface{}, error) {
 	ev := &EnumValue{
 		Name:        string(name.(Identifier)),
-		Value:       -1,
+		Value:       unsetEnumValue,
 		Annotations: toAnnotations(annotations),
 	}
 	if docstr != nil {
